@@ -214,8 +214,15 @@ def run_de2_maps(rng, obs):
     obs.desc = {'solver': 'de2', 'dim': dim, 'NP': NP, 'strategy': strat, 'cost': spec, 'box': box, 'cons': cons, 'generations': gens, 'evalmon': evalmon, 'sampled_init': sampled}
     if sampled: obs.event('sampled_from_a_distribution')
     import mystic.strategy as ST
+    mutating = rng.random() < 0.2         # a cost that edits the vector it is handed: the solver's own trial vectors are not its to edit, under any map
     def cost(x):                    # plain module-level-free function: must work in forked children and threads
-        return raw([float(v) for v in x])
+        y = raw([float(v) for v in x])
+        if mutating:
+            try: x[0] = round(float(x[0]), 1)
+            except TypeError: pass
+        return y
+    obs.desc['cost_edits_its_argument'] = mutating
+    if mutating: obs.event('cost_edits_its_argument')
     def run(mapname, zoo, swap_at=None):
         random.seed(obs.seed); np.random.seed(obs.seed % (2 ** 32))
         s = DifferentialEvolutionSolver2(dim, NP)
